@@ -102,6 +102,33 @@ def read_trace(path, tid):
     raise tlc.TLCError('trace %s not found in %s' % (tid, path))
 
 
+def pack_shards(workdir, recs):
+    """Small shard files (one per driver chunk) are concatenated into files of about SHARD_BYTES, so that the
+    number of JVMs is proportional to the volume of the traces.  -> recs with the new paths"""
+    paths = sorted({r[3] for r in recs}, key=lambda p: -os.path.getsize(p))
+    total = sum(os.path.getsize(p) for p in paths)
+    limit = min(SHARD_BYTES, max(1000000, total // NJVM + 1))      # enough files to keep every JVM slot busy
+    bins = []       # [size, target path, [sources]]
+    for p in paths:
+        sz = os.path.getsize(p)
+        for b in bins:
+            if b[0] + sz <= limit:
+                b[0] += sz
+                b[2].append(p)
+                break
+        else:
+            bins.append([sz, os.path.join(workdir, 'pack%03d.ndjson' % len(bins)), [p]])
+    moved = {}
+    for _, target, srcs in bins:
+        with open(target, 'wb') as out:
+            for p in srcs:
+                with open(p, 'rb') as f:
+                    shutil.copyfileobj(f, out)
+                os.remove(p)
+                moved[p] = target
+    return [(tid, n, meta, moved[p]) for tid, n, meta, p in recs]
+
+
 def validate(workdir, recs):
     """Judge every shard with TLC -> (list of fail records, stats)"""
     paths = sorted({r[3] for r in recs})
@@ -148,7 +175,7 @@ def run_check(prop, tier, seed, keep=False):
         log('[%s] family %s: %d cases (%d states, %.1fs)' % (prop, fam, len(cs), st['distinct'], st['wall_s']))
     cases = scripts.select_cases(prop, tier, seed, cases)
     case_of = dict(cases)
-    recs = drive(prop, tier, seed, cases, work)
+    recs = pack_shards(work, drive(prop, tier, seed, cases, work))
     if len({r[0] for r in recs}) != len(recs):
         raise tlc.TLCError('trace ids are not unique')
     metas = {r[0]: dict(r[2], case=case_of[r[2]['cid']]) for r in recs}
